@@ -18,6 +18,7 @@ import BV.Lemmas.StreamTotal
 import BV.Lemmas.StreamRunTile
 import BV.Model.StreamNF
 import BV.Lemmas.StreamNFFull
+import BV.Lemmas.StreamNFSum
 
 namespace BV.Props.C08Run
 open BV.Stream BV.Bits BV.Stored
@@ -140,22 +141,60 @@ theorem nonfinal_requests_cover_blocks_run {o : Oracle} {fuel : Nat} {calls : Li
 example : NeverFlushed [.setParam 1 5, .stream 0 [1, 2, 3] 100, .take 0, .stream 2 [] 100] :=
   ⟨Or.inl rfl, Or.inr rfl, trivial⟩
 
-/-
-WHAT IS STILL NOT ONE THEOREM (`stream_total_le_bound_run`: total bytes delivered ≤ Max(total input)
-over `run`).  Done at run level: `BlocksOK` (above), the tiling of the input by the requests and the
-meaning of the closed flags (C01 `requests_tile_input_run`, `closed_flags_mark_boundaries`), the bit-exact
-framing `deliveredBits = concatenation of the log's pieces` (C01 `delivered_is_framed_concat`), and the
-generic vehicle `run_sim`.  Missing for the sum: a second simulation instance whose transitions record,
-for the FIRST `encode_data` event, that the skeleton is exactly `headLen` bits (magic-number block with
-≤ 5 size-hint bytes for `size_hint < 2^35`, stored prelude of `pre ≤ 2` bytes) and for later ones that it
-is empty (`encMid_both`, proved in Lemmas/StreamNFStep.lean; the first-invocation lemma `encMid_first` is
-written there as a comment: its proof script makes Lean 4.33 loop in `isDefEq` on `encMagic … .1`), that
-no sync block occurs without a FLUSH, and that nothing is encoded after the final request; then
-`Run`/`run_bound`/`stream_total_bound` apply to the log with the per-meta-block growth bound (`Guard`,
-proved by `guard_holds` from the size decision of `WriteMetaBlockInternal`) as the only payload
-hypothesis.  Meta-block lengths ≤ 2^24 additionally need the emit rule of `encode_data`
-(`next_input_fits_metablock`) as an oracle hypothesis: the stream model leaves `emit` to the oracle.
--/
+/-- **never_flushed_run_structure**: for every never-flushed history (set_parameter / take_output /
+PROCESS / FINISH, any chunking and capacities, any oracle) on a fresh encoder with `size_hint < 2^35` that
+ends FINISHED at quality ≥ 2, the log of the history — the one whose pieces concatenate to EXACTLY the
+delivered bit stream and whose requests are the trace's — has the grammar `nfT` from `fresh` to `done`:
+one stream header of 1‥14 bits; then only copies, pushes and bookkeeping until the FIRST `encode_data`
+event, which starts at `last_flush_pos_ = 0` and writes, carry included, exactly
+`headLen W magic kk pre` bits (`kk ≤ 5` size-hint bytes, `pre ≤ 2` prelude bytes); later `encode_data`
+events write no skeleton; the final one emits its meta-block and is followed by pushes only; no sync
+block, one-shot block, metadata event or second header occurs; every non-final request sees ≥ 2^14 bytes. -/
+theorem never_flushed_run_structure {o : Oracle} {fuel : Nat} {calls : List Call} {s0 s : St} {t : Trace}
+    (hf : IsFresh s0) (hh : s0.params.sizeHint < 2 ^ 35) (hnf : NeverFlushed calls) (hw : histLen calls < two64)
+    (h : run o fuel calls s0 {} = .ok (s, t)) (hq : s.q01 = false) (hfin : isFinished s = true) :
+    ∃ log : List Ev, deliveredBits t s = logBits o log ∧ logReqs log = t.reqs ∧ LogOK ⟨0, 0, 0, 0⟩ log
+      ∧ s.pos = logPos ⟨0, 0, 0, 0⟩ log ∧ Path nfT .fresh log .done
+      ∧ (∀ e ∈ log, (∃ w, e = .window w) ∨ EvFull e) :=
+  nf_run_structure hf hh hnf hw h hq hfin
+
+/- FULL STATEMENT (`stream_total_le_bound_run`): under the hypotheses of `never_flushed_run_structure` and
+`LogGuard` of the run's log (the per-meta-block growth bound that `guard_holds` proves of
+`WriteMetaBlockInternal`), `t.delivered.length ≤ maxCompressedSize s.inputPos`.
+It is proved below with ONE explicit extra hypothesis, `NFLogArith o`: a statement about abstract event
+lists only (grammar `nfT`, positions, `EvFull`, `LogGuard` ⇒ at most `8 · Max` bits) whose proof —
+`Run`/`BlocksOK` read off the log, `run_bound`, the head arithmetic of `stream_total_bound` — is not
+written yet.  Everything that involves the stream machine is discharged. -/
+
+/-- **stream_total_le_bound_run_partial**: total bytes delivered ≤ `BrotliEncoderMaxCompressedSize`(total
+input) for a whole never-flushed run, reduced to the log arithmetic `NFLogArith`. -/
+theorem stream_total_le_bound_run_partial {o : Oracle} {fuel : Nat} {calls : List Call} {s0 s : St} {t : Trace}
+    (hf : IsFresh s0) (hh : s0.params.sizeHint < 2 ^ 35) (hnf : NeverFlushed calls) (hw : histLen calls < two64)
+    (h : run o fuel calls s0 {} = .ok (s, t)) (hq : s.q01 = false) (hfin : isFinished s = true)
+    (hn : s.inputPos < 2 ^ 54) (harith : NFLogArith o) :
+    ∃ log : List Ev, deliveredBits t s = logBits o log ∧ logReqs log = t.reqs ∧
+      (LogGuard o 0 ⟨0, 0, 0, 0⟩ log → t.delivered.length ≤ maxCompressedSize s.inputPos) := by
+  obtain ⟨log, hb, hr, hok, hpos, hpath, hfull⟩ := nf_run_structure hf hh hnf hw h hq hfin
+  refine ⟨log, hb, hr, ?_⟩
+  intro hG
+  have hip : s.inputPos = (logPos ⟨0, 0, 0, 0⟩ log).ip := congrArg Pos.ip hpos
+  have hlt : (logPos ⟨0, 0, 0, 0⟩ log).ip < 2 ^ 54 := by rw [← hip]; exact hn
+  have := harith log hpath hok hfull hG hlt
+  rw [← hip] at this
+  have hlen : 8 * t.delivered.length ≤ (logBits o log).length := by
+    rw [← hb]
+    unfold deliveredBits
+    rw [List.length_append, bytesBits_length, List.length_append]
+    omega
+  omega
+
+/-- non-vacuity of the hypotheses of `never_flushed_run_structure`: a quality-5 history that ends finished -/
+def exampleFinished (r : Out (St × Trace)) : Bool :=
+  match r with
+  | .ok (s, _) => isFinished s && !s.q01
+  | _ => false
+example : exampleFinished (run (fun _ _ => { result := true, emit := true, bits := List.replicate 20 true }) 40
+    [.setParam 1 5, .stream 2 [1, 2, 3] 100] St.new {}) = true := by decide
 
 /-! non-vacuity: a quality-5 one-shot call on three bytes whose payload encoder answers 20 bits —
 with room the stream result is returned, with a 2-byte buffer the call fails cleanly -/
